@@ -48,23 +48,20 @@ theorem openH_r (w : World) (p : Path) (D : Bytes) (hg : w.fs.get (cstr p) = som
   simp [Spec.File.sopen, hg, hW, hP, hA, hR]
 
 theorem step_open_w (w : World) (p : Path) :
-    (step w (.open (some p) (some modeW))).2 = .int 0 ∧ WState (step w (.open (some p) (some modeW))).1 p []
-    ∧ (step w (.open (some p) (some modeW))).1.fs.memLimit = w.fs.memLimit := by
+    (step w (.open (some p) (some modeW))).2 = .int 0 ∧ WState (step w (.open (some p) (some modeW))).1 p [] := by
   have hc : hasComma modeW = false := by decide
   simp only [step, hc, openH_w]
   simp [WState, FS.put]
 
 theorem step_open_r (w : World) (p : Path) (D : Bytes) (hg : w.fs.get (cstr p) = some D) :
     (step w (.open (some p) (some modeR))).2 = .int 0 ∧ RState (step w (.open (some p) (some modeR))).1 p D 0
-    ∧ (step w (.open (some p) (some modeR))).1.fs.memLimit = w.fs.memLimit
     ∧ (step w (.open (some p) (some modeR))).1.fs.get (cstr p) = some D := by
   have hc : hasComma modeR = false := by decide
   simp only [step, hc, openH_r w p D hg]
   simp [RState, FS.put]
 
 theorem step_write (w : World) (p : Path) (C d : Bytes) (hs : WState w p C) (hd : d.length < 4294967296) :
-    (step w (.writeS (some d))).2 = .int d.length ∧ WState (step w (.writeS (some d))).1 p (C ++ d)
-    ∧ (step w (.writeS (some d))).1.fs.memLimit = w.fs.memLimit := by
+    (step w (.writeS (some d))).2 = .int d.length ∧ WState (step w (.writeS (some d))).1 p (C ++ d) := by
   obtain ⟨l, hf, hw, hg⟩ := hs
   have hl : writeLen d = d.length := by unfold writeLen; omega
   by_cases hd0 : d = []
@@ -77,7 +74,7 @@ theorem step_close (w : World) : (step w .close).2 = .bool true ∧ (step w .clo
   simp [step, Handle.close]
 
 theorem step_read (w : World) (p : Path) (D : Bytes) (k : Nat) (n : Int64) (hs : RState w p D k)
-    (hn : 0 < n.toInt) (hm : n.toInt.toNat ≤ w.fs.memLimit) :
+    (hn : 0 < n.toInt) :
     (step w (.readB (some n))).2 = .rd (readAt D k n.toInt.toNat).length (readAt D k n.toInt.toNat)
     ∧ RState (step w (.readB (some n))).1 p D (k + (readAt D k n.toInt.toNat).length)
     ∧ (step w (.readB (some n))).1.fs = w.fs := by
@@ -85,8 +82,7 @@ theorem step_read (w : World) (p : Path) (D : Bytes) (k : Nat) (n : Int64) (hs :
   have hloop := readLoop_eq D (readFuel n.toInt) k n.toInt [] (readFuel_ok _)
   simp only [step, hr, hf, readH, badInput]
   generalize n.toInt = N at *
-  have hres : reserveOk w.fs false N.toNat = true := by simp [reserveOk, hm]
-  simp [hn, hres, hg, hloop, readAt, RState]
+  simp [hn, hg, hloop, readAt, RState]
 
 /-- the answers of consecutive reads with counts `ns` over what is left (`D`) of the file -/
 def slices : Bytes → List Int64 → List Res
@@ -98,30 +94,29 @@ def readOps (ns : List Int64) : List Op := ns.map fun n => .readB (some n)
 
 theorem run_writes (p : Path) : ∀ (ds : List Bytes) (w : World) (C : Bytes), WState w p C →
     (∀ d ∈ ds, d.length < 4294967296) →
-    (run w (writeOps ds)).2 = ds.map (fun d => .int d.length) ∧ WState (run w (writeOps ds)).1 p (C ++ ds.flatten)
-    ∧ (run w (writeOps ds)).1.fs.memLimit = w.fs.memLimit := by
+    (run w (writeOps ds)).2 = ds.map (fun d => .int d.length) ∧ WState (run w (writeOps ds)).1 p (C ++ ds.flatten) := by
   intro ds
   induction ds with
   | nil => intro w C hs _; simpa [writeOps, run] using hs
   | cons d ds ih =>
     intro w C hs hl
     have h1 := step_write w p C d hs (hl d (by simp))
-    have h2 := ih (step w (.writeS (some d))).1 (C ++ d) h1.2.1 (fun x hx => hl x (by simp [hx]))
+    have h2 := ih (step w (.writeS (some d))).1 (C ++ d) h1.2 (fun x hx => hl x (by simp [hx]))
     simp only [writeOps, List.map_cons, run_cons] at h2 ⊢
-    refine ⟨by rw [h1.1, h2.1], ?_, by rw [h2.2.2, h1.2.2]⟩
-    simpa [List.append_assoc] using h2.2.1
+    refine ⟨by rw [h1.1, h2.1], ?_⟩
+    simpa [List.append_assoc] using h2.2
 
-theorem run_reads (p : Path) (D : Bytes) (M : Nat) : ∀ (ns : List Int64) (w : World) (k : Nat), RState w p D k → w.fs.memLimit = M →
-    (∀ n ∈ ns, 0 < n.toInt ∧ n.toInt.toNat ≤ M) →
+theorem run_reads (p : Path) (D : Bytes) : ∀ (ns : List Int64) (w : World) (k : Nat), RState w p D k →
+    (∀ n ∈ ns, 0 < n.toInt) →
     (run w (readOps ns)).2 = slices (D.drop k) ns ∧ (run w (readOps ns)).1.fs = w.fs := by
   intro ns
   induction ns with
-  | nil => intro w k _ _ _; simp [readOps, run, slices]
+  | nil => intro w k _ _; simp [readOps, run, slices]
   | cons n ns ih =>
-    intro w k hs hM hn
+    intro w k hs hn
     have hn1 := hn n (by simp)
-    have h1 := step_read w p D k n hs hn1.1 (by rw [hM]; exact hn1.2)
-    have h2 := ih (step w (.readB (some n))).1 _ h1.2.1 (by rw [h1.2.2]; exact hM) (fun x hx => hn x (by simp [hx]))
+    have h1 := step_read w p D k n hs hn1
+    have h2 := ih (step w (.readB (some n))).1 _ h1.2.1 (fun x hx => hn x (by simp [hx]))
     simp only [readOps, List.map_cons, run_cons] at h2 ⊢
     refine ⟨?_, by rw [h2.2, h1.2.2]⟩
     rw [h1.1, h2.1]
@@ -136,55 +131,52 @@ theorem run_reads (p : Path) (D : Bytes) (M : Nat) : ∀ (ns : List Int64) (w : 
     rw [hdd]
 
 /-- **file_write_read_roundtrip.** For ALL byte lists, all chunkings `ds` of the writes and all positive read counts
-    `ns` (any value: below, equal to or above 4096, multiple of it or not) that the allocator can serve:
+    `ns` (ANY value up to INT64_MAX: below, equal to or above 4096, multiple of it or not — the request is no allocation):
     `open(p,"w")`, the writes, `close`, `open(p,"r")`, the reads answer exactly: 0, the chunk lengths, TRUE, 0, and the
     consecutive slices `take n` of the concatenated data — every `read(n)` returns `min(n, remaining)` bytes —
     and an independent reader finds exactly the concatenated data in the file afterwards. -/
 theorem file_write_read_roundtrip (w : World) (p : Path) (ds : List Bytes) (ns : List Int64)
-    (hl : ∀ d ∈ ds, d.length < 4294967296) (hn : ∀ n ∈ ns, 0 < n.toInt ∧ n.toInt.toNat ≤ w.fs.memLimit) :
+    (hl : ∀ d ∈ ds, d.length < 4294967296) (hn : ∀ n ∈ ns, 0 < n.toInt) :
     let ops := [Op.open (some p) (some modeW)] ++ writeOps ds ++ [.close, .open (some p) (some modeR)] ++ readOps ns
     (run w ops).2 = [.int 0] ++ ds.map (fun d => .int d.length) ++ [.bool true, .int 0] ++ slices ds.flatten ns
     ∧ (run w ops).1.content p = some ds.flatten := by
   intro ops
   have ho := step_open_w w p
-  have hw := run_writes p ds _ [] ho.2.1 hl
-  obtain ⟨_, _, _, hg⟩ := hw.2.1
+  have hw := run_writes p ds _ [] ho.2 hl
+  obtain ⟨_, _, _, hg⟩ := hw.2
   have hc := step_close (run (step w (.open (some p) (some modeW))).1 (writeOps ds)).1
   have hg' : (step (run (step w (.open (some p) (some modeW))).1 (writeOps ds)).1 .close).1.fs.get (cstr p)
       = some ([] ++ ds.flatten) := by
     rw [hc.2.1]; exact hg
   have hr := step_open_r _ p _ hg'
-  have hM : (step (step (run (step w (.open (some p) (some modeW))).1 (writeOps ds)).1 .close).1
-      (.open (some p) (some modeR))).1.fs.memLimit = w.fs.memLimit := by
-    rw [hr.2.2.1, hc.2.1, hw.2.2, ho.2.2]
-  have hrd := run_reads p ([] ++ ds.flatten) w.fs.memLimit ns _ 0 hr.2.1 hM hn
+  have hrd := run_reads p ([] ++ ds.flatten) ns _ 0 hr.2.1 hn
   simp only [ops, List.append_assoc, List.cons_append, List.nil_append, run_cons, run_append]
   refine ⟨?_, ?_⟩
   · rw [ho.1, hw.1, hc.1, hr.1, hrd.1]
     simp
   · simp only [World.content]
-    rw [hrd.2, hr.2.2.2]
+    rw [hrd.2, hr.2.2]
     simp
 
 /-- Non-vacuity of the round trip: the hypotheses hold in a concrete world for 3 bytes incl. NUL written as
-    "a\\0" + "b" and read back with counts 2 and 5 (the second read gets the 1 byte that is left). -/
-def w0 : World := { fs := { get := fun _ => none, maxOff := 1000, memLimit := 1000 }, h := {} }
+    "a\\0" + "b" and read back with counts 2 and INT64_MAX (the second read gets the 1 byte that is left). -/
+def w0 : World := { fs := { get := fun _ => none, maxOff := 1000 }, h := {} }
 
 example :
     (run w0 ([Op.open (some [120]) (some modeW)] ++ writeOps [[97, 0], [98]] ++ [.close, .open (some [120]) (some modeR)]
-        ++ readOps [2, 5])).2
-      = [.int 0, .int 2, .int 1, .bool true, .int 0] ++ slices [97, 0, 98] [2, 5]
-    ∧ slices [97, 0, 98] [2, 5] = [.rd 2 [97, 0], .rd 1 [98]] :=
-  ⟨(file_write_read_roundtrip w0 [120] [[97, 0], [98]] [2, 5] (by decide) (by decide)).1, by decide⟩
+        ++ readOps [2, 9223372036854775807])).2
+      = [.int 0, .int 2, .int 1, .bool true, .int 0] ++ slices [97, 0, 98] [2, 9223372036854775807]
+    ∧ slices [97, 0, 98] [2, 9223372036854775807] = [.rd 2 [97, 0], .rd 1 [98]] :=
+  ⟨(file_write_read_roundtrip w0 [120] [[97, 0], [98]] [2, 9223372036854775807] (by decide) (by decide)).1, by decide⟩
 
 /-- **read count.** On a readable stream, `read(var, n)` with `0 < n` returns exactly `min(n, remaining)` bytes — the
     next ones — and advances the position by that number: for n ≤ 4096, n > 4096, multiples of 4096 or not. -/
 theorem file_read_count (w : World) (p : Path) (D : Bytes) (k : Nat) (n : Int64) (hs : RState w p D k)
-    (hn : 0 < n.toInt) (hm : n.toInt.toNat ≤ w.fs.memLimit) :
+    (hn : 0 < n.toInt) :
     ∃ data, (step w (.readB (some n))).2 = .rd data.length data ∧ data = (D.drop k).take n.toInt.toNat
       ∧ data.length = min n.toInt.toNat (D.length - k)
       ∧ RState (step w (.readB (some n))).1 p D (k + data.length) := by
-  have h := step_read w p D k n hs hn hm
+  have h := step_read w p D k n hs hn
   refine ⟨readAt D k n.toInt.toNat, h.1, rfl, ?_, h.2.1⟩
   simp [readAt, List.length_take]
 
@@ -208,15 +200,14 @@ theorem file_refines_spec_write (w : World) (f : OFile) (d : Bytes) (hf : w.h.fi
       simp [writeH, hw, hl, hne, absF, Spec.File.swrite, hd0, FS.put, fwriteBytes_eq_writeAt, ha]
 
 /-- **file_refines_spec (read).** The chunk loop on a readable stream = `Spec.sread`. -/
-theorem file_refines_spec_read (w : World) (f : OFile) (n : Int64) (str : Bool) (hr : f.rd = true) (hn : 0 < n.toInt)
-    (hm : reserveOk w.fs str n.toInt.toNat = true) :
+theorem file_refines_spec_read (w : World) (f : OFile) (n : Int64) (str : Bool) (hr : f.rd = true) (hn : 0 < n.toInt) :
     ∃ f', (readH w f str n).1.h.file = some f' ∧ f'.path = f.path
       ∧ (readH w f str n).2 = .rd (Spec.File.sread (absF w f) n.toInt.toNat).1.length (Spec.File.sread (absF w f) n.toInt.toNat).1
       ∧ absF (readH w f str n).1 f' = (Spec.File.sread (absF w f) n.toInt.toNat).2 := by
   have hloop := readLoop_eq ((w.fs.get f.path).getD []) (readFuel n.toInt) f.pos n.toInt [] (readFuel_ok _)
   simp only [readH]
   generalize n.toInt = N at *
-  simp [hn, hm, hr, hloop, absF, Spec.File.sread, readAt]
+  simp [hn, hr, hloop, absF, Spec.File.sread, readAt]
 
 /-- **file_refines_spec (seek).** `seekset/seekcur/seekend` = `Spec.sseek`: errno 22 and no movement exactly when the
     target is negative or beyond what the file system accepts. -/
@@ -228,27 +219,66 @@ theorem file_refines_spec_seek (w : World) (f : OFile) (wh : Spec.File.Whence) (
   unfold seekH absF
   cases h : Spec.File.sseek w.fs.maxOff ⟨(w.fs.get f.path).getD [], f.pos, f.app⟩ wh off.toInt <;> simp [EINVAL, h]
 
+/-! ### readln -/
+
+theorem readlnScan_line (l rest : Bytes) (hl : LF ∉ l) : ∀ (r : Nat) (acc : Bytes) (k : Nat), r + l.length < 4096 →
+    readlnScan (l ++ LF :: rest) r acc k = (acc ++ l ++ [LF], k + l.length + 1, .lf) := by
+  induction l with
+  | nil => intro r acc k h; simp [readlnScan, show ¬ r ≥ 4096 by simp at h; omega]
+  | cons b l ih =>
+    intro r acc k h
+    have hb : b ≠ LF := by intro hb; apply hl; simp [hb]
+    have hl' : LF ∉ l := by intro h'; apply hl; simp [h']
+    simp only [List.length_cons] at h
+    have hr : ¬ r ≥ 4096 := by omega
+    simp only [List.cons_append, readlnScan, hr, if_false, hb]
+    rw [ih hl' (r + 1) (acc ++ [b]) (k + 1) (by omega)]
+    simp [Nat.add_assoc, Nat.add_comm 1]
+
+theorem readlnScan_eof (l : Bytes) (hl : LF ∉ l) : ∀ (r : Nat) (acc : Bytes) (k : Nat), r + l.length ≤ 4096 →
+    readlnScan l r acc k = (acc ++ l, k + l.length, .eof) := by
+  induction l with
+  | nil => intro r acc k _; simp [readlnScan]
+  | cons b l ih =>
+    intro r acc k h
+    have hb : b ≠ LF := by intro hb; apply hl; simp [hb]
+    have hl' : LF ∉ l := by intro h'; apply hl; simp [h']
+    simp only [List.length_cons] at h
+    have hr : ¬ r ≥ 4096 := by omega
+    simp only [readlnScan, hr, if_false, hb]
+    rw [ih hl' (r + 1) (acc ++ [b]) (k + 1) (by omega)]
+    simp [Nat.add_assoc, Nat.add_comm 1]
+
+/-- **file_readln_line.** On a readable stream whose unread part is `l ++ LF :: rest` with `l` shorter than the buffer
+    and free of LF — and otherwise ARBITRARY bytes, NUL included — `readln` answers TRUE, stores exactly `l ++ [LF]`
+    and leaves the position behind the LF: nothing is dropped. -/
+theorem file_readln_line (w : World) (p : Path) (D : Bytes) (k : Nat) (l rest : Bytes) (hs : RState w p D k)
+    (hD : D.drop k = l ++ LF :: rest) (hl : LF ∉ l) (hlen : l.length < 4096) :
+    (step w .readln).2 = .ln true (some (l ++ [LF])) ∧ RState (step w .readln).1 p D (k + l.length + 1) := by
+  obtain ⟨lst, hf, hr, hg⟩ := hs
+  have hscan := readlnScan_line l rest hl 0 [] 0 (by omega)
+  simp [step, hr, hf, badInput, readlnH, hg, hD, hscan, RState, Nat.add_assoc]
+
+/-- … and the last line of a file without final LF comes back whole as well, NUL bytes included. -/
+theorem file_readln_last (w : World) (p : Path) (D : Bytes) (k : Nat) (hs : RState w p D k)
+    (hl : LF ∉ D.drop k) (hne : D.drop k ≠ []) (hlen : (D.drop k).length ≤ 4096) :
+    (step w .readln).2 = .ln true (some (D.drop k)) := by
+  obtain ⟨lst, hf, hr, hg⟩ := hs
+  have hscan := readlnScan_eof (D.drop k) hl 0 [] 0 (by omega)
+  have hpos : 0 < (D.drop k).length := List.length_pos_iff.mpr hne
+  simp only [step, hr, hf, badInput, readlnH, hg]
+  simp only [Option.getD_some, hscan]
+  have hpos' : 0 < D.length - k := by simpa using hpos
+  simp [hpos']
+
+/-- a NUL byte is data: the bytes 61 00 62 0a 63 read as the line 61 00 62 0a (was: "a", then "b\n") -/
+example : readlnScan [97, 0, 98, 10, 99] 0 [] 0 = ([97, 0, 98, 10], 4, .lf)
+    ∧ readlnScan [0, 0] 0 [] 0 = ([0, 0], 2, .eof) ∧ LF ∉ [(97 : UInt8), 0, 98] := by decide
+
 /-! ### arguments -/
 
-/-- the calls that leave defined behaviour: a `read` whose preallocation `reserve(n)` cannot be served, and
-    `write(bytes)` of an empty value without buffer (`fwrite(nullptr, ..)`) -/
-def HazardRegion (w : World) : Op → Prop
-  | .readS (some n) => ∃ f, w.h.file = some f ∧ w.h.r = true ∧ ¬ (badInput f = true) ∧ 0 < n.toInt
-                        ∧ reserveOk w.fs true n.toInt.toNat = false
-  | .readB (some n) => ∃ f, w.h.file = some f ∧ w.h.r = true ∧ ¬ (badInput f = true) ∧ 0 < n.toInt
-                        ∧ reserveOk w.fs false n.toInt.toNat = false
-  | .writeB (some d) => ∃ f, w.h.file = some f ∧ w.h.w = true ∧ d = [] ∧ w.fs.emptyBuf = false
-  | _ => False
-
-theorem readH_hazard (w : World) (f : OFile) (str : Bool) (n : Int64) :
-    (∃ z, (readH w f str n).2 = .hazard z) ↔ (0 < n.toInt ∧ reserveOk w.fs str n.toInt.toNat = false) := by
-  unfold readH
-  generalize n.toInt = N
-  by_cases h1 : N > 0
-  · by_cases h2 : reserveOk w.fs str N.toNat = true
-    · simp [h1, h2]
-    · simp [h1, h2]
-  · simp [h1]
+theorem readH_no_hazard (w : World) (f : OFile) (str : Bool) (n : Int64) : ∀ z, (readH w f str n).2 ≠ .hazard z := by
+  intro z; unfold readH; split <;> simp
 
 theorem seekH_no_hazard (w : World) (f : OFile) (wh : Spec.File.Whence) (o : Int64) : ∀ z, (seekH w f wh o).2 ≠ .hazard z := by
   intro z; unfold seekH; simp only []; split <;> simp
@@ -258,72 +288,47 @@ theorem readlnH_no_hazard (w : World) (f : OFile) : ∀ z, (readlnH w f).2 ≠ .
   repeat' split
   all_goals simp
 
-/-- **file_args_total.** For EVERY state of the object and EVERY argument (null, negative, INT64 extremes, any mode
-    string, any path) a call yields a defined result or a BLOC error — except exactly in `HazardRegion`. -/
-theorem file_args_total (w : World) (op : Op) : (∃ z, (step w op).2 = .hazard z) ↔ HazardRegion w op := by
+/-- **file_args_total.** For EVERY state of the object, EVERY method and EVERY argument (null, negative, zero, INT64
+    extremes as count or offset, any mode string, any path, empty values) a call yields a defined result, a BLOC error,
+    or one of the two documented non-answers (`unmodelled`: stat/dir/ccs; `undefinedSeq`: C11 7.21.5.3 p7) — never a
+    hazard: the hazard region is empty. -/
+theorem file_args_total (w : World) (op : Op) : ∀ z, (step w op).2 ≠ .hazard z := by
+  intro z
   cases op with
   | readS n =>
-    cases n with
-    | none => simp [step, HazardRegion]; try (split <;> simp)
-    | some n =>
-      simp only [step, HazardRegion]
-      by_cases hr : w.h.r = true
-      · cases hf : w.h.file with
-        | none => simp [hr]
-        | some f =>
-          by_cases hb : badInput f = true ∧ n.toInt > 0
-          · simp [hr, hb]
-          · have := readH_hazard w f true n
-            by_cases hb1 : badInput f = true
-            · have : ¬ n.toInt > 0 := fun h => hb ⟨hb1, h⟩
-              simp [hr, hb, hb1, readH, this]
-            · simp only [hr, hb, if_false, Bool.not_true, Bool.false_eq_true]
-              simp [hb1, this]
-      · simp [hr]
+    simp only [step]
+    split
+    · simp
+    · split
+      · split
+        · simp
+        · exact readH_no_hazard _ _ _ _ z
+      · simp
   | readB n =>
-    cases n with
-    | none => simp [step, HazardRegion]; try (split <;> simp)
-    | some n =>
-      simp only [step, HazardRegion]
-      by_cases hr : w.h.r = true
-      · cases hf : w.h.file with
-        | none => simp [hr]
-        | some f =>
-          by_cases hb : badInput f = true ∧ n.toInt > 0
-          · simp [hr, hb]
-          · have := readH_hazard w f false n
-            by_cases hb1 : badInput f = true
-            · have : ¬ n.toInt > 0 := fun h => hb ⟨hb1, h⟩
-              simp [hr, hb, hb1, readH, this]
-            · simp only [hr, hb, if_false, Bool.not_true, Bool.false_eq_true]
-              simp [hb1, this]
-      · simp [hr]
+    simp only [step]
+    split
+    · simp
+    · split
+      · split
+        · simp
+        · exact readH_no_hazard _ _ _ _ z
+      · simp
   | writeB d =>
-    cases d with
-    | none => simp [step, HazardRegion]; split <;> simp <;> split <;> simp
-    | some d =>
-      simp only [step, HazardRegion]
-      by_cases hw : w.h.w = true
-      · cases hf : w.h.file with
-        | none => simp [hw]
-        | some f =>
-          by_cases hd : d = [] ∧ w.fs.emptyBuf = false
-          · simp [hw, hd]
-          · simp only [hw, hd, if_false, Bool.not_true, Bool.false_eq_true]
-            have : ¬ (d = [] ∧ w.fs.emptyBuf = false) := hd
-            split <;> simp_all
-      · simp [hw]
+    simp only [step]
+    split
+    · simp
+    · split
+      · split <;> simp
+      · simp
   | writeS d =>
-    simp only [step, HazardRegion, iff_false, not_exists]
-    intro z
+    simp only [step]
     split
     · simp
     · split
       · split <;> simp
       · simp
   | readln =>
-    simp only [step, HazardRegion, iff_false, not_exists]
-    intro z
+    simp only [step]
     split
     · simp
     · split
@@ -331,49 +336,48 @@ theorem file_args_total (w : World) (op : Op) : (∃ z, (step w op).2 = .hazard 
         · simp
         · exact readlnH_no_hazard _ _ z
       · simp
-  | seekSet n => simp only [step, HazardRegion, iff_false, not_exists]; intro z; split <;> first | exact seekH_no_hazard _ _ _ _ z | simp
-  | seekCur n => simp only [step, HazardRegion, iff_false, not_exists]; intro z; split <;> first | exact seekH_no_hazard _ _ _ _ z | simp
-  | seekEnd n => simp only [step, HazardRegion, iff_false, not_exists]; intro z; split <;> first | exact seekH_no_hazard _ _ _ _ z | simp
+  | seekSet n => simp only [step]; split <;> first | exact seekH_no_hazard _ _ _ _ z | simp
+  | seekCur n => simp only [step]; split <;> first | exact seekH_no_hazard _ _ _ _ z | simp
+  | seekEnd n => simp only [step]; split <;> first | exact seekH_no_hazard _ _ _ _ z | simp
   | ctor p m =>
-    simp only [step, HazardRegion, iff_false, not_exists]; intro z
+    simp only [step]
     split
     · split
       · simp
       · split <;> simp
     · simp
   | «open» p m =>
-    simp only [step, HazardRegion, iff_false, not_exists]; intro z
+    simp only [step]
     split
     · split <;> simp
     · simp
-  | ctor0 => simp only [step, HazardRegion, iff_false, not_exists]; intro z; split <;> simp
-  | close => simp [step, HazardRegion]
-  | flush => simp only [step, HazardRegion, iff_false, not_exists]; intro z; split <;> simp
-  | position => simp only [step, HazardRegion, iff_false, not_exists]; intro z; split <;> simp
-  | isOpen => simp [step, HazardRegion]
-  | mode => simp [step, HazardRegion]
-  | filename => simp only [step, HazardRegion, iff_false, not_exists]; intro z; split <;> simp
-  | fdirname => simp only [step, HazardRegion, iff_false, not_exists]; intro z; split <;> simp
-  | fbasename => simp only [step, HazardRegion, iff_false, not_exists]; intro z; split <;> simp
-  | fstat => simp only [step, HazardRegion, iff_false, not_exists]; intro z; split <;> simp
-  | stat p => simp only [step, HazardRegion, iff_false, not_exists]; intro z; split <;> simp
-  | dir p => simp only [step, HazardRegion, iff_false, not_exists]; intro z; split <;> simp
-  | separator => simp [step, HazardRegion]
-  | dirname p => simp only [step, HazardRegion, iff_false, not_exists]; intro z; split <;> simp
-  | basename p => simp only [step, HazardRegion, iff_false, not_exists]; intro z; split <;> simp
+  | ctor0 => simp only [step]; split <;> simp
+  | close => simp [step]
+  | flush => simp only [step]; split <;> simp
+  | position => simp only [step]; split <;> simp
+  | isOpen => simp [step]
+  | mode => simp [step]
+  | filename => simp only [step]; split <;> simp
+  | fdirname => simp only [step]; split <;> simp
+  | fbasename => simp only [step]; split <;> simp
+  | fstat => simp only [step]; split <;> simp
+  | stat p => simp only [step]; split <;> simp
+  | dir p => simp only [step]; split <;> simp
+  | separator => simp [step]
+  | dirname p => simp only [step]; split <;> simp
+  | basename p => simp only [step]; split <;> simp
 
-/-- the region is inhabited: a stream open for reading, `read(S, 2^62)` (std::length_error), and an updatable
-    stream with `write` of an empty buffer-less bytes value -/
+/-- the former hazard region now has defined answers: on a stream open for update on the 1-byte file "a",
+    `read(S, 2^62)` and `read(X, INT64_MAX)` return that byte, `write` of an empty bytes value returns 0; and null /
+    negative / zero arguments are a BLOC error or a defined result as before -/
 def wR : World :=
-  { fs := { get := fun _ => some [97], maxOff := 1000, memLimit := 70368744177664 },
+  { fs := { get := fun _ => some [97], maxOff := 1000 },
     h := { file := some { path := [120], pos := 0, rd := true, wr := true, app := false }, r := true, w := true } }
 
-example : (step wR (.readS (some 4611686018427387904))).2 = .hazard .foreignException := by decide +kernel
-example : (step wR (.readB (some 9223372036854775807))).2 = .hazard .foreignException := by decide +kernel
-example : (step wR (.writeB (some []))).2 = .hazard .nullArg := by decide +kernel
-example : HazardRegion wR (.readS (some 4611686018427387904)) :=
-  (file_args_total wR _).mp ⟨.foreignException, by decide +kernel⟩
-/-- … and null / negative / zero arguments are outside of it: BLOC error or defined result -/
+example : (readLoop true [97] (readFuel 4611686018427387904) 0 4611686018427387904 []) = ([97], 1)
+    ∧ (readLoop true [97] (readFuel 9223372036854775807) 0 9223372036854775807 []) = ([97], 1) :=
+  ⟨by rw [readLoop_eq _ _ _ _ _ (readFuel_ok _)]; decide, by rw [readLoop_eq _ _ _ _ _ (readFuel_ok _)]; decide⟩
+example : (step wR (.writeB (some []))).2 = .int 0 ∧ (step wR (.writeS (some []))).2 = .int 0 := by decide +kernel
 example : (step wR (.readS none)).2 = .err ∧ (step wR (.readS (some (-5)))).2 = .rd 0 []
     ∧ (step wR (.seekSet (some (-1)))).2 = .int 22 ∧ (step wR (.seekSet none)).2 = .err
     ∧ (step wR (.writeS none)).2 = .int 0 ∧ (step wR (.open none (some [114]))).2 = .err := by decide +kernel
@@ -383,19 +387,9 @@ example : (step wR (.readS none)).2 = .err ∧ (step wR (.readS (some (-5)))).2 
 section Sqlite
 open BlocV.Mod.Sqlite
 
-theorem cstr_of_no_nul : ∀ (s : Sqlite.Bytes), (0 : UInt8) ∉ s → Sqlite.cstr s = s := by
-  intro s
-  induction s with
-  | nil => intro _; rfl
-  | cons b rest ih =>
-    intro h
-    have hb : b ≠ 0 := by intro hb; apply h; simp [hb]
-    have hr : (0 : UInt8) ∉ rest := by intro hr; apply h; simp [hr]
-    simp [Sqlite.cstr, hb, ih hr]
-
-/-- **sqlite_value_roundtrip.** Every storable value — any integer, any decimal that is not a NaN, any string
-    without NUL byte, any non-empty bytes value — is bound to a storage class from which `fetch` / `query` rebuild
-    the identical value with the identical type, whatever the buffer state of empty vectors. -/
+/-- **sqlite_value_roundtrip.** Every storable value — any integer, any decimal that is not a NaN, ANY string
+    (empty, invalid UTF-8, NUL bytes anywhere), any non-empty bytes value — is bound to a storage class from which
+    `fetch` / `query` rebuild the identical value with the identical type, whatever the buffer state of empty vectors. -/
 theorem sqlite_value_roundtrip (eb : Bool) (v : BVal) (h : Storable v) :
     ∃ s, bindOf eb v = some s ∧ fetchOf s = v ∧ (fetchOf s).ty = v.ty := by
   cases v with
@@ -403,9 +397,7 @@ theorem sqlite_value_roundtrip (eb : Bool) (v : BVal) (h : Storable v) :
   | dec d =>
     have hd : isNaN d = false := h
     exact ⟨.real d, by simp [bindOf, hd], rfl, rfl⟩
-  | str s =>
-    have hs : (0 : UInt8) ∉ s := h
-    exact ⟨.text s, rfl, by simp [fetchOf, cstr_of_no_nul s hs], by simp [fetchOf, BVal.ty]⟩
+  | str s => exact ⟨.text s, rfl, rfl, rfl⟩
   | bytes b =>
     have hb : b ≠ [] := h
     exact ⟨.blob b, by simp [bindOf, hb], rfl, rfl⟩
@@ -414,53 +406,67 @@ theorem sqlite_value_roundtrip (eb : Bool) (v : BVal) (h : Storable v) :
   | obj => exact absurd h (by simp [Storable])
 
 example : Storable (.int (-9223372036854775808)) ∧ Storable (.dec 0x8000000000000000) ∧ Storable (.dec 0x7ff0000000000000)
-    ∧ Storable (.str [0xc3, 0xa9, 0xff]) ∧ Storable (.str []) ∧ Storable (.bytes [0, 255]) := by decide
+    ∧ Storable (.str [0xc3, 0xa9, 0xff]) ∧ Storable (.str []) ∧ Storable (.str [97, 0, 98]) ∧ Storable (.str [0])
+    ∧ Storable (.bytes [0, 255]) := by decide
 
-/-- What is NOT preserved (each a proved negation at a witness): boolean → integer, NaN → untyped null, a string
-    with NUL → cut, empty bytes without buffer → untyped null, a typed null → untyped null. -/
+/-- a string with NUL bytes makes the round trip (was: cut at the first NUL) -/
+example : (bindOf false (.str [97, 0, 98])).map fetchOf = some (.str [97, 0, 98])
+    ∧ (bindOf false (.str [0])).map fetchOf = some (.str [0]) := by decide
+
+/-- What is NOT preserved (each a proved negation at a witness; none of these was repaired): boolean → integer,
+    NaN → untyped null, empty bytes without buffer → untyped null, a typed null → untyped null, an object is not bound. -/
 theorem sqlite_not_preserved :
     (bindOf false (.bool true)).map fetchOf = some (.int 1)
     ∧ (bindOf false (.dec 0x7ff8000000000000)).map fetchOf = some (.null .noType)
-    ∧ (bindOf false (.str [97, 0, 98])).map fetchOf = some (.str [97])
     ∧ (bindOf false (.bytes [])).map fetchOf = some (.null .noType)
     ∧ (bindOf true (.bytes [])).map fetchOf = some (.bytes [])
     ∧ (bindOf false (.null .integer)).map fetchOf = some (.null .noType)
     ∧ bindOf false .obj = none := by decide
 
 /-- the full path through the state machine: `exec("INSERT …", tup(v))` then `query("SELECT a, typeof(a) FROM t")`,
-    and `prepare / bind / execute`, then `prepare / execute / fetch`: the storable value comes back -/
-theorem sqlite_insert_query_roundtrip (eb : Bool) (v : BVal) (s : SVal) (hb : bindOf eb v = some s) (hf : fetchOf s = v)
+    and `prepare / bind / execute` (argument tuple temporary or not), then `prepare / execute / fetch`: the value comes back -/
+theorem sqlite_insert_query_roundtrip (eb temp : Bool) (v : BVal) (s : SVal) (hb : bindOf eb v = some s) (hf : fetchOf s = v)
     (hs : s ≠ .null) :
     (Sqlite.run { emptyBuf := eb } [.open, .create, .insert (some [v]), .queryAll]).2
       = [.bool true, .bool true, .bool true, .table [(v, typeofS s)] v.ty]
-    ∧ (Sqlite.run { emptyBuf := eb } [.open, .create, .prepare (some .insert), .bind (some [v]) false, .execute, .finalize,
+    ∧ (Sqlite.run { emptyBuf := eb } [.open, .create, .prepare (some .insert), .bind (some [v]) temp, .execute, .finalize,
           .prepare (some .select), .execute, .fetch, .fetch]).2
       = [.bool true, .bool true, .bool true, .bool true, .bool true, .bool true, .bool true, .bool true, .row (v, typeofS s), .bool false] := by
   constructor
-  · simp [Sqlite.run, Sqlite.step, stepCore, touchTemp, Handle.blurTemp, Handle.releaseTemp, Handle.cursorActive, bindArgs, hb, rowOf, hf,
-          declOf]
-  · cases s with
-    | null => exact absurd rfl hs
-    | integer i => simp [Sqlite.run, Sqlite.step, stepCore, touchTemp, Handle.blurTemp, bindArgs, bindMem, hb, rowOf, hf, keepsPointer]
-    | real d => simp [Sqlite.run, Sqlite.step, stepCore, touchTemp, Handle.blurTemp, bindArgs, bindMem, hb, rowOf, hf, keepsPointer]
-    | text t =>
-      by_cases ht : t = [] <;> (try subst ht) <;>
-        simp [Sqlite.run, Sqlite.step, stepCore, touchTemp, Handle.blurTemp, bindArgs, bindMem, hb, rowOf, hf, keepsPointer, *]
-    | blob t =>
-      by_cases ht : t = [] <;> (try subst ht) <;>
-        simp [Sqlite.run, Sqlite.step, stepCore, touchTemp, Handle.blurTemp, bindArgs, bindMem, hb, rowOf, hf, keepsPointer, *]
+  · simp [Sqlite.run, Sqlite.step, Handle.cursorActive, bindArgs, hb, rowOf, hf, declOf]
+  · simp [Sqlite.run, Sqlite.step, bindArgs, hb, rowOf, hf]
 
-/-- the two memory hazards of the handle, at concrete histories: the statement left dangling by `close()` is
-    finalized again by the destructor; a temporary tuple bound with SQLITE_STATIC is read by `execute()` after the
-    next statement released it. With a `finalize` before `close`, resp. a tuple held by a variable, there is none. -/
-example : (Sqlite.run {} [.open, .create, .prepare (some .select), .close, .destroy]).2.getLast? = some (.hazard .useAfterFree) := by
+example : bindOf false (.str [97, 0, 98]) = some (.text [97, 0, 98]) ∧ fetchOf (.text [97, 0, 98]) = .str [97, 0, 98]
+    ∧ SVal.text [97, 0, 98] ≠ .null := by decide
+
+/-- **sqlite_args_total.** For EVERY state of the handle (open or closed, with or without statement, any status), EVERY
+    method and EVERY argument tuple, a call yields a defined result, a BLOC error or `unmodelled` (errmsg; an INSERT
+    while a SELECT cursor is on a row) — never a use after free. -/
+theorem sqlite_args_total (w : Sqlite.World) (op : Sqlite.Op) : ∀ z, (Sqlite.step w op).2 ≠ .hazard z := by
+  intro z
+  cases op <;> simp only [Sqlite.step, closeH] <;> (repeat' split) <;> simp
+
+/-- **close forgets the statement**: after `close()` there is no statement and the status is NEW, whatever was prepared -/
+theorem sqlite_close_forgets (w : Sqlite.World) (h : w.h.isOpen = true) :
+    (Sqlite.step w .close).2 = .bool true ∧ (Sqlite.step w .close).1.h.stmt = none
+    ∧ (Sqlite.step w .close).1.h.status = .new ∧ (Sqlite.step w .close).1.h.isOpen = false := by
+  simp [Sqlite.step, closeH, h]
+
+/-- **bind copies**: whether the argument tuple is a temporary makes no difference -/
+theorem sqlite_bind_temp_irrelevant (w : Sqlite.World) (a : Option (List BVal)) :
+    Sqlite.step w (.bind a true) = Sqlite.step w (.bind a false) := by
+  cases a <;> simp [Sqlite.step]
+
+/-- the two former memory hazards, at the same histories: the statement left by `close()` is gone, the destructor has
+    nothing to free twice, a re-opened connection has no statement; a temporary tuple bound before another statement
+    with a temporary is stored intact by `execute()`. -/
+example : (Sqlite.run {} [.open, .create, .prepare (some .select), .close, .destroy]).2.getLast? = some (.bool true) := by
   decide +kernel
-example : (Sqlite.run {} [.open, .create, .prepare (some .select), .finalize, .close, .destroy]).2.getLast? = some (.bool true) := by
+example : (Sqlite.run {} [.open, .create, .prepare (some .select), .close, .open, .finalize]).2.getLast? = some (.bool false) := by
   decide +kernel
-example : (Sqlite.run {} [.open, .create, .prepare (some .insert), .bind (some [.str [97]]) true, .insert (some [.int 1]), .execute]).2.getLast?
-    = some (.hazard .useAfterFree) := by decide +kernel
-example : (Sqlite.run {} [.open, .create, .prepare (some .insert), .bind (some [.str [97]]) false, .insert (some [.int 1]), .execute]).2.getLast?
-    = some (.bool true) := by decide +kernel
+example : (Sqlite.run {} [.open, .create, .prepare (some .insert), .bind (some [.str [97]]) true, .insert (some [.int 1]), .execute,
+      .queryAll]).2.getLast? = some (.table [(.int 1, typeofS (.integer 1)), (.str [97], typeofS (.text [97]))] .string) := by
+  decide +kernel
 
 end Sqlite
 
